@@ -38,6 +38,7 @@ type Contract struct {
 	Trusted     bool
 	Nilable     map[string]bool
 	Pure        bool            // calls are modelled as applications of an uninterpreted function of the arguments
+	NoEffect    map[string]bool // named function types whose values, when called, are ASSUMED to have no effect on modelled state (user callbacks)
 	Expand      map[string]bool // callees (keys) whose bodies are executed in place although they are pure / have a contract
 	IfaceType   types.Type      // for interface-level contracts
 	IfaceMethod string
@@ -55,6 +56,9 @@ type Clause struct {
 	Loop  int
 	Name  string // for let
 	Line  int
+
+	chanGuard Expr // assigns chanstate(e, cond)
+	chanState bool // assigns chanstate(e): e denotes a channel whose queue/closed flag may change
 }
 
 func clauseLabel(c *Clause, i int) string {
@@ -320,6 +324,13 @@ func (c *Contract) addClause(word, rest string, line int) error {
 		}
 		for _, k := range strings.Split(rest, ",") {
 			c.Expand[strings.TrimSpace(k)] = true
+		}
+	case "assumes-noeffect":
+		if c.NoEffect == nil {
+			c.NoEffect = map[string]bool{}
+		}
+		for _, k := range strings.Split(rest, ",") {
+			c.NoEffect[strings.TrimSpace(k)] = true
 		}
 	case "tokens":
 		c.Tokens = true
